@@ -139,7 +139,13 @@ def random_divisor(rng, G, band=None, big=False):
     return D
 
 # ---------------------------------------------------------------- the implementation side (run inside impl_worker)
+_SHARED = None     # inside a growth history: one graph object per case, reused by every call (see add_growth)
 def build_impl_graph(G, rng=None):
+    if _SHARED is not None:
+        if "g" not in _SHARED: _SHARED["g"] = _build_impl_graph(G, rng)
+        return _SHARED["g"]
+    return _build_impl_graph(G, rng)
+def _build_impl_graph(G, rng=None):
     from chipfiring import CFGraph
     names = G["names"]; edges = [(names[a], names[b], k) for a, b, k in G["edges"]]
     later = []
@@ -279,3 +285,57 @@ class InProcessPool:
         items = list(it); items.reverse()
         for x in items: yield f(x)
     def terminate(self): pass
+
+
+def add_growth(ns, prob=0.25):
+    """History variant for single-call checks: on a fraction of the cases every call of the case is made on ONE graph object, then the same
+    object grows by an edge (add_edge) and every call is made again; the answers must be those for the graph as it is now (verified model on the
+    grown graph). This is what exposes caches keyed on object identity and derived quantities (genus, valences, canonical divisor) kept stale."""
+    import random as _r
+    gen0, impl0, ml0, judge0, oracle0 = ns["gen"], ns["impl"], ns["model_lines"], ns["judge"], ns.get("oracle")
+    two = ns.get("TWO_STAGE", False)
+    def grown(c): return dict(c, G=mk_graph_like(c["G"], c["G"]["edges"] + [c["grow"]]), grow=None)
+    def gen(rng, tier):
+        cs = gen0(rng, tier); r2 = _r.Random(rng.randrange(1 << 30))
+        for c in cs:
+            n = c["G"]["n"]
+            if n >= 2 and c.get("fam") != "exhaustive" and r2.random() < prob:
+                a, b = r2.sample(range(n), 2); c["grow"] = [a, b, r2.randint(1, 2)]
+        return cs
+    def impl(c):
+        global _SHARED
+        if not c.get("grow"): return impl0(c)
+        _SHARED = {}
+        try:
+            first = impl0(c)
+            a, b, k = c["grow"]; names = c["G"]["names"]
+            g = _SHARED.get("g")
+            if g is None: g = build_impl_graph(c["G"], _r.Random(c.get("s", 0)))
+            g.add_edge(names[a], names[b], k)
+            return {"first": first, "after": impl0(grown(c))}
+        finally:
+            _SHARED = None
+    def _ml(c, o): return ml0(c, {"ok": o}) if two else ml0(c)
+    def model_lines(c, r=None):
+        if not c.get("grow"): return ml0(c, r) if two else ml0(c)
+        if two and (r is None or "ok" not in r): return ml0(c, r)
+        o = r["ok"] if two else None
+        return _ml(c, o["first"] if two else None) + _ml(grown(c), o["after"] if two else None)
+    def judge(c, r, mo):
+        if not c.get("grow") or "exc" in r: return judge0(c, r, mo)
+        o = r["ok"]; k1 = len(_ml(c, o["first"]))
+        out = judge0(c, {"ok": o["first"]}, mo[:k1])
+        if not out:
+            out = judge0(grown(c), {"ok": o["after"]}, mo[k1:])
+            for x in out: x["what"] = "after add_edge%s on the same graph object: %s" % (tuple(c["grow"]), x["what"])
+        return out
+    def oracle(c, r):
+        if not c.get("grow") or r is None or "exc" in r: return oracle0(c, r)
+        a = oracle0(c, {"ok": r["ok"]["first"]})
+        if a and a.get("violates"): return a
+        b = oracle0(grown(c), {"ok": r["ok"]["after"]})
+        if b: b["history"] = "after add_edge%s" % (tuple(c["grow"]),)
+        return b
+    ns.update({"gen": gen, "impl": impl, "model_lines": model_lines, "judge": judge})
+    if oracle0: ns["oracle"] = oracle
+    ns["RULE"] = ns.get("RULE", "") + "; on %d%% of the cases a growth history: all calls on one graph object, add_edge on that object, all calls again" % int(prob * 100)
